@@ -205,6 +205,105 @@ func loadKnown(verif string) *KnownFile {
 }
 
 // propertyFuncs: which functions a property's obligations can live in (all functions for the sweeps).
+// extendTags: the proof of an obligation of property P in function f assumes the postconditions of the repository
+// functions f calls, so those postconditions have to be discharged under P as well - otherwise a change inside a
+// callee that breaks its contract is reported only under the properties the callee happens to be tagged with
+// (missed seed C20-agent6: toDecimal, tagged C05 C14 C18, is what `equal` compares numbers with).  The closure is
+// taken over non-recursive callees with a contract (conversion and classification helpers, the builtins called
+// from evaluate's cases); the members of the evaluator's recursive cycle carry their tags explicitly.
+func (g *Gen) extendTags(prop string) {
+	has := func(tags []string) bool {
+		for _, t := range tags {
+			if t == prop {
+				return true
+			}
+		}
+		return false
+	}
+	byKey := map[string]*ssa.Function{}
+	for _, f := range g.sortedFuncs() {
+		byKey[FuncKey(f)] = f
+	}
+	tagged := func(c *Contract) bool {
+		if has(c.Tags) {
+			return true
+		}
+		for _, cl := range append(append([]*Clause{}, c.Requires...), c.Ensures...) {
+			if has(cl.Tags) {
+				return true
+			}
+		}
+		for _, l := range c.Loops {
+			for _, cl := range l.Invariants {
+				if has(cl.Tags) {
+					return true
+				}
+			}
+		}
+		for _, sa := range c.Sites {
+			if has(sa.C.Tags) {
+				return true
+			}
+		}
+		return false
+	}
+	var work []*ssa.Function
+	seen := map[*ssa.Function]bool{}
+	for k, c := range g.Spec.Contracts {
+		// evaluate is not a source: its per-case clauses are wiring clauses over the graphs of the callees
+		// (returns(...)/isEv), they do not use the callees' postconditions
+		if f := byKey[k]; f != nil && !c.External && tagged(c) && shortKey(k) != "evaluator.evaluator.evaluate" {
+			work = append(work, f)
+			seen[f] = true
+		}
+	}
+	sort.Slice(work, func(i, j int) bool { return FuncKey(work[i]) < FuncKey(work[j]) })
+	add := func(cl *Clause) {
+		if cl != nil && len(cl.Tags) > 0 && !has(cl.Tags) {
+			cl.Tags = append(append([]string{}, cl.Tags...), prop)
+		}
+	}
+	for len(work) > 0 {
+		f := work[0]
+		work = work[1:]
+		for _, b := range f.Blocks {
+			for _, in := range b.Instrs {
+				call, ok := in.(*ssa.Call)
+				if !ok {
+					continue
+				}
+				sc := call.Common().StaticCallee()
+				if sc == nil || seen[sc] || g.Recursive()[sc] {
+					continue
+				}
+				c := g.Spec.Contracts[FuncKey(sc)]
+				if c == nil || c.External || byKey[FuncKey(sc)] == nil {
+					continue
+				}
+				seen[sc] = true
+				work = append(work, sc)
+				if !has(c.Tags) {
+					c.Tags = append(append([]string{}, c.Tags...), prop)
+				}
+				for _, cl := range c.Ensures {
+					add(cl)
+				}
+				for _, l := range c.Loops {
+					for _, cl := range l.Invariants {
+						add(cl)
+					}
+					add(l.Decreases)
+					add(l.Bound)
+				}
+				for _, sa := range c.Sites {
+					add(sa.C)
+				}
+				g.supportFuncs = append(g.supportFuncs, shortKey(FuncKey(sc)))
+			}
+		}
+	}
+}
+
 func wantsFunc(g *Gen, f *ssa.Function, prop string) bool {
 	switch prop {
 	case "":
@@ -281,6 +380,9 @@ func cmdCheck(args []string) {
 	seed := 0
 	fmt.Sscan(os.Getenv("VERIF_SEED"), &seed)
 	g := loadAll(*repo, *verif)
+	if *prop != "" {
+		g.extendTags(*prop)
+	}
 	timeout := 10000
 	coverReturns = *tier == "thorough"
 	heightAssumptions = *prop == "C09" || *prop == ""
